@@ -529,6 +529,12 @@ func (x *Exec) invoke(fr *Frame, st *State, cc *ssa.CallCommon, recv Val, args [
 		}
 	}
 	itName := shortTypeName(cc.Value.Type())
+	if x.cs.IfacePure[mname] && sig.Results().Len() == 1 {
+		// a deterministic, effect-free observer of the dynamic value
+		x.funcsUsed["assume:interface observer "+mname+"() is a deterministic function of the value, without side effects"] = true
+		k(st, x.uninterp(st, "im_"+mname, append([]Val{recv}, args...), sig.Results().At(0).Type()))
+		return
+	}
 	if lib, ok := libTable["iface:"+itName+"."+mname]; ok {
 		if r, ok := lib(x, fr, st, cc, append([]Val{recv}, args...)); ok {
 			k(st, r)
@@ -710,6 +716,21 @@ func (x *Exec) appendBuiltin(st *State, cc *ssa.CallCommon, args []Val) Val {
 		st.assume(Term{fmt.Sprintf("(forall ((i Int)) (! (=> (and (<= 0 i) (< i %s)) (= (select %s i) (select %s i))) :pattern ((select %s i))))", oldLen.S, arr.S, old.S, arr.S), "Bool"})
 		j := Term{"j", "Int"}
 		st.assume(Term{fmt.Sprintf("(forall ((j Int)) (! (=> (and (<= 0 j) (< j %s)) (= (select %s (+ %s j)) %s)) :pattern (%s)))", n.S, arr.S, oldLen.S, elemAt(j).S, elemAt(j).S), "Bool"})
+	}
+	// []byte contents seen as a string: appending concatenates
+	if sl, ok := T.Underlying().(*types.Slice); ok && isByteType(sl.Elem()) && x.te.StrSort == "String" && !x.te.ByteBV {
+		oldS := x.bytesToString(st, s.T)
+		var added Term
+		if isStringType(cc.Args[1].Type()) {
+			added = more.T
+		} else if k, ok := x.constLen(st, n); ok && k == 1 {
+			added = Term{fmt.Sprintf("(str.from_code %s)", elemAt(IntLit(0)).S), "String"}
+		} else {
+			added = x.bytesToString(st, more.T)
+		}
+		b2s := "b2s_" + sanitize(sort)
+		newS := Term{fmt.Sprintf("(%s %s %s)", b2s, arr.S, newLen.S), "String"}
+		st.assume(Eq(newS, mk("String", "str.++", oldS, added)))
 	}
 	cp := x.d.Fresh("cap", "Int")
 	st.assume(Ge(cp, newLen))
